@@ -3,8 +3,10 @@
    arbitrary histories) and proofs/AsyncGen_proofs.v (facts about the regenerated record and the
    refutation witnesses).  Everything below is about [GenAsync.code], the record the translator
    regenerates from twisted/__init__.py, transaction.py and constants.py on every run.
-   A history is ANY list of Execute / Segment (reply frames) / Lost / Made / Skip n; deferreds are
-   named by the allocation index of their transaction id. *)
+   A history is ANY list of Execute / ExecuteE / ExecuteC / Segment (reply frames) / Lost / Made /
+   Skip n; ExecuteE / ExecuteC are requests whose errback / callback calls protocol.execute again
+   (re-entrant user code); deferreds are named by the allocation index of their transaction id.
+   [plain ops] = no ExecuteE / ExecuteC in the history. *)
 From PM.theories Require Import Base AsyncClient.
 From PM.Generated Require Import GenAsync.
 From PM.proofs Require Import Async_proofs AsyncGen_proofs.
@@ -42,7 +44,7 @@ Print Assumptions C16_exactly_once.
 
 (* window hypothesis (fewer than 65536 tids handed out since every registered request was issued,
    checked at each Execute) => no slot is ever overwritten *)
-Theorem C16_no_overwrite : forall v ops, safe_run code v ops (init_state code) = true ->
+Theorem C16_no_overwrite : forall v ops, plain ops = true -> safe_run code v ops (init_state code) = true ->
   a_lost (arun code v ops (init_state code)) = [].
 Proof. exact (no_overwrite_from_init code gen_good). Qed.
 Print Assumptions C16_no_overwrite.
@@ -55,11 +57,12 @@ Theorem C16_right_reply : forall ops d tid rid,
 Proof. exact (right_reply_all_histories code gen_good). Qed.
 Print Assumptions C16_right_reply.
 
-(* a reply whose tid is pending fires exactly that deferred with exactly that reply *)
+(* a reply whose tid is pending fires exactly that deferred with exactly that reply (then that
+   deferred's user callback runs) *)
 Theorem C16_solicited_delivered : forall σ u tid rid d p',
   dpop (a_pending σ) tid = Some (d, p') ->
-  let σ' := astep code VDict σ (Segment [(u, tid, rid)]) in
-  a_fired σ' = a_fired σ ++ [(d, OCb tid rid)] /\ a_pending σ' = p'.
+  astep code VDict σ (Segment [(u, tid, rid)]) =
+  react code VDict (move_fired σ p' d (OCb tid rid)) d (OCb tid rid).
 Proof. exact (solicited_delivered code gen_good). Qed.
 Print Assumptions C16_solicited_delivered.
 
@@ -112,7 +115,7 @@ Theorem C16_unsolicited_dropped : forall ops u tid rid,
 Proof. exact (unsolicited_dropped code gen_good). Qed.
 Print Assumptions C16_unsolicited_dropped.
 
-Theorem C16_duplicate_dropped : forall ops u tid rid u' rid',
+Theorem C16_duplicate_dropped : forall ops u tid rid u' rid', plain ops = true ->
   let σ := arun code VDict ops (init_state code) in
   let σ1 := astep code VDict σ (Segment [(u, tid, rid)]) in
   astep code VDict σ1 (Segment [(u', tid, rid')]) = σ1.
@@ -121,10 +124,13 @@ Print Assumptions C16_duplicate_dropped.
 
 (* --- connection loss ----------------------------------------------------------------------------- *)
 
+(* also when errbacks call execute() again while connectionLost is still running: the table ends up
+   empty, nothing that had fired is forgotten, every deferred that was pending got ConnectionException *)
 Theorem C16_lost : forall v σ,
   let σ' := astep code v σ Lost in
   a_pending σ' = [] /\ a_conn σ' = false /\
-  a_fired σ' = a_fired σ ++ map (fun x => (snd x, OErr ConnectionExc)) (a_pending σ).
+  (forall x, In x (a_fired σ) -> In x (a_fired σ')) /\
+  (forall k d, In (k, d) (a_pending σ) -> In (d, OErr ConnectionExc) (a_fired σ')).
 Proof. exact (lost_errbacks_all code gen_good). Qed.
 Print Assumptions C16_lost.
 
@@ -137,16 +143,17 @@ Print Assumptions C16_execute_after_lost.
 
 Theorem C16_stays_lost : forall v ops σ, a_conn σ = false -> no_made ops = true ->
   a_conn (arun code v ops σ) = false.
-Proof. exact (disconnected_stays code). Qed.
+Proof. exact (disconnected_stays code gen_good). Qed.
 Print Assumptions C16_stays_lost.
 
 (* --- limits of the unmodified code, as witnesses ---------------------------------------------------- *)
 
-(* replies for different units coalesced into one segment: everything behind the first foreign
-   unit is dropped (dataReceived takes the unit filter from the first frame) *)
+(* replies for different units coalesced into one segment: a reply for another unit than the first
+   frame's is skipped and its deferred stays pending (dataReceived takes the unit filter from the
+   first frame); the frames behind it are delivered (framer repair 11) *)
 Theorem C16_mixed_unit_refuted :
-  let σ := arun code VDict [Made; Execute; Execute; Segment [(1, 1, 11); (2, 2, 12)]] (init_state code) in
-  a_fired σ = [(1, OCb 1 11)] /\ a_pending σ = [(2, 2)].
+  let σ := arun code VDict [Made; Execute; Execute; Execute; Segment [(1, 1, 11); (2, 2, 12); (1, 3, 13)]] (init_state code) in
+  a_fired σ = [(1, OCb 1 11); (3, OCb 3 13)] /\ a_pending σ = [(2, 2)].
 Proof. exact mixed_unit_dropped. Qed.
 Print Assumptions C16_mixed_unit_refuted.
 
@@ -158,11 +165,38 @@ Theorem C16_fifo_unsolicited_misdelivered :
 Proof. exact fifo_unsolicited. Qed.
 Print Assumptions C16_fifo_unsolicited_misdelivered.
 
+(* --- re-entrant user code --------------------------------------------------------------------------- *)
+
+(* an errback that re-issues a request while connectionLost is draining the table: _connected is
+   already False, so the new request fails at once and nothing is left behind *)
+Theorem C16_reentrant_errback :
+  let σ := arun code VDict [Made; ExecuteE; Execute; Lost] (init_state code) in
+  a_pending σ = [] /\ a_conn σ = false /\
+  a_fired σ = [(1, OErr ConnectionExc); (3, OErr ConnectionExc); (2, OErr ConnectionExc)].
+Proof. exact reentrant_errback_ok. Qed.
+Print Assumptions C16_reentrant_errback.
+
+(* the order matters: with the flag cleared AFTER the loop (everything else as generated) the
+   re-issued request is filed behind the snapshot being drained and never fires *)
+Theorem C16_clear_first_needed :
+  (let σ := arun code_clear_late VDict [Made; ExecuteE; Lost] (init_state code_clear_late) in
+   a_pending σ = [(2, 2)] /\ a_conn σ = false /\ a_fired σ = [(1, OErr ConnectionExc)]) /\
+  (let σ := arun code_clear_late VFifo [Made; ExecuteE; Lost] (init_state code_clear_late) in
+   a_pending σ = [(2, 2)] /\ a_conn σ = false /\ a_fired σ = [(1, OErr ConnectionExc)]).
+Proof. exact reentrant_errback_needs_clear_first. Qed.
+Print Assumptions C16_clear_first_needed.
+
+Theorem C16_reentrant_callback :
+  let σ := arun code VDict [Made; ExecuteC; Reply 1 10; Reply 2 20] (init_state code) in
+  a_pending σ = [] /\ a_fired σ = [(1, OCb 1 10); (2, OCb 2 20)] /\ a_sent σ = [(1, 1); (2, 2)].
+Proof. exact reentrant_callback_ok. Qed.
+Print Assumptions C16_reentrant_callback.
+
 (* the hypotheses above are satisfiable together on a history in which deferreds really fire *)
 Example C16_nonvacuous :
   let ops := [Made; Execute; Execute; Execute; Reply 3 30; Reply 1 10; Reply 9 90; Reply 1 11; Lost; Execute] in
   let σ := arun code VDict ops (init_state code) in
-  safe_run code VDict ops (init_state code) = true /\
+  plain ops = true /\ safe_run code VDict ops (init_state code) = true /\
   a_fired σ = [(3, OCb 3 30); (1, OCb 1 10); (2, OErr ConnectionExc); (4, OErr ConnectionExc)] /\
   a_pending σ = [] /\ a_lost σ = [].
 Proof. exact nonvacuous_history. Qed.
